@@ -400,7 +400,7 @@ def drift_of(expects, summ):
 
 def judge(c, rows, name, count):
     """validate_trace with a metadir of its own (several judgements of one process may run at the same time)"""
-    path = os.path.join(util.BUILD, "traces", name + ".ndjson")
+    path = os.path.join(getattr(util, "TRACES", os.path.join(util.BUILD, "traces")), name + ".ndjson")   # per invocation
     util.write_ndjson(path, rows)
     res = c.tlc("LifecycleTrace", "LifecycleTrace.cfg", subdir="trace", workers=1, coverage=False, dfs_queue=True,
                 env={"TRACE": path}, timeout=600, heap="2g", expect_ok=False,
